@@ -366,7 +366,7 @@ func (a *cbpAnchors) more() *cbpMore {
 					}
 				}
 			case *ssa.Alloc:
-				if n := core.NamedOf(x.Type()); n != nil {
+				if n, _ := x.Type().(*types.Pointer).Elem().(*types.Named); n != nil {
 					if n.Obj() == a.shard.Obj() && x.Heap {
 						m.newShardFn = fn
 					}
